@@ -35,6 +35,13 @@ impl ChannelSetup {
 // Channel as far as update_channel reads it
 pub struct Channel { pub id0: ChannelId, pub id: Option<ChannelId>, pub setup: ChannelSetup, pub enforcement_state: EnforcementState, pub rest: ChannelRest }
 
+// ChannelStub as far as new_channel reads it
+pub struct ChannelStub { pub id0: ChannelId, pub blockheight: u32, pub rest: ChannelRest }
+pub uninterp spec fn fresh_enforcement_state() -> EnforcementState;      // EnforcementState::new(0)
+impl EnforcementState {
+    #[verifier::external_body] pub fn new(n: u64) -> (r: EnforcementState) requires n == 0 ensures r == fresh_enforcement_state() { unimplemented!() }
+}
+
 impl Channel {
 // Channel::id(): the permanent id if there is one, else the node-assigned id (NOT what records are keyed by)
 //@fn vls-core/src/channel.rs :: impl Channel :: id props=C15
@@ -72,6 +79,13 @@ pub fn vx_key_channel_id(prefix: &VxStr, key: &VxStr) -> (r: ChannelId) ensures 
 impl VxKvvPersister {
     #[verifier::external_body]
     pub fn put(&self, key: &VxStr, value: Vec<u8>) -> (r: Result<(), Error>) ensures r.is_ok() ==> kv_put(*self, *key, value@) { unimplemented!() }
+    // KVVStore::delete (units kvv_*: a tombstone at the next version) and KVVStore::get
+    pub uninterp spec fn kv_deleted(&self, key: VxStr) -> bool;      // call marker
+    #[verifier::external_body]
+    pub fn delete(&self, key: &VxStr) -> (r: Result<(), Error>) ensures r.is_ok() ==> self.kv_deleted(*key) { unimplemented!() }
+    pub uninterp spec fn stored(&self, key: VxStr) -> Option<(u64, Vec<u8>)>;
+    #[verifier::external_body]
+    pub fn get(&self, key: &VxStr) -> (r: Result<Option<(u64, Vec<u8>)>, Error>) ensures r.is_ok() ==> r->Ok_0 == self.stored(*key) { unimplemented!() }
     // self.get_prefix(prefix)? with KVV::into_inner applied: (key, value) pairs under the prefix, tombstones included
     pub uninterp spec fn under_prefix(&self, prefix: VxStr) -> Seq<(VxStr, Vec<u8>)>;
     #[verifier::external_body]
@@ -87,6 +101,35 @@ impl VxKvvPersister {
 //@sub /make_key2\(CHANNEL_PREFIX, &node_id\.serialize\(\), ([\w.()]+?)\.as_slice\(\)\)/ => vx_chan_key(node_id, &\1)
 //@sub /channel\.setup\.channel_value_sat/ => channel.setup.vx_channel_value_sat()
 //@sub /F::ser_value\(&entry\)\?/ => vx_ser_channel_entry(&entry)?
+//@end
+
+//@fn vls-persist/src/kvv.rs :: impl<S: KVVStore, F: ValueFormat> Persist for KVVPersister<S, F> :: new_channel props=C11,C15
+    ensures
+        // a new stub is recorded under its node-assigned id with its birth height and no setup: the restart path rebuilds a
+        // stub (not a ready channel) from it
+        r.is_ok() ==> kv_put(*self, chan_key(*node_id, stub.id0), ser_channel_entry(ChannelEntry {
+            channel_value_satoshis: 0, channel_setup: None, id: None,
+            enforcement_state: fresh_enforcement_state(), blockheight: Some(stub.blockheight) })),                  //[C11.store.stub-record-under-id0]
+//@sub /make_key2\(CHANNEL_PREFIX, &node_id\.serialize\(\), ([\w.()]+?)\.as_slice\(\)\)/ => vx_chan_key(node_id, &\1)
+//@sub /F::ser_value\(&entry\)\?/ => vx_ser_channel_entry(&entry)?
+//@end
+
+//@fn vls-persist/src/kvv.rs :: impl<S: KVVStore, F: ValueFormat> Persist for KVVPersister<S, F> :: delete_channel props=C15,C11
+    ensures
+        // exactly the record of this node and this id is deleted
+        r.is_ok() ==> self.kv_deleted(chan_key(*node_id, *channel_id)),                                            //[C15.store.delete-removes-this-channel-record]
+//@sub /make_key2\(CHANNEL_PREFIX, &node_id\.serialize\(\), ([\w.()]+?)\.as_slice\(\)\)/ => vx_chan_key(node_id, \1)
+//@end
+
+//@fn vls-persist/src/kvv.rs :: impl<S: KVVStore, F: ValueFormat> Persist for KVVPersister<S, F> :: get_channel props=C11
+//@sigsub /CoreChannelEntry/ => CoreChannelEntry
+    ensures
+        // the record read back is the one stored under this node and this id, field by field
+        r.is_ok() ==> self.stored(chan_key(*node_id, *channel_id)).is_some()
+            && r->Ok_0 == to_core_entry(de_channel_entry(self.stored(chan_key(*node_id, *channel_id))->Some_0.1@)),   //[C11.store.channel-record-read-back-by-id]
+//@sub /make_key2\(CHANNEL_PREFIX, &node_id\.serialize\(\), ([\w.()]+?)\.as_slice\(\)\)/ => vx_chan_key(node_id, \1)
+//@sub /let entry: ChannelEntry = F::de_value\(&value\)\?;/ => let entry: ChannelEntry = vx_de_channel_entry(&value)?;
+//@sub /entry\.into\(\)/ => CoreChannelEntry::from(entry)
 //@end
 
 // what one stored pair becomes at a restart
